@@ -9,6 +9,9 @@ use bytes::{Buf, BufMut, Bytes, BytesMut};
 
 use std::convert::TryFrom;
 
+/// Upper bound on what `decode` reserves ahead of data that has not arrived yet.
+const MAX_RESERVE: usize = 64 * 1024;
+
 #[derive(Debug, Clone, Copy)]
 struct Frame {
     command: bool,
@@ -56,7 +59,9 @@ impl Decoder for ZmqCodec {
 
     fn decode(&mut self, src: &mut BytesMut) -> Result<Option<Self::Item>, Self::Error> {
         if src.len() < self.waiting_for {
-            src.reserve(self.waiting_for - src.len());
+            // The frame size is chosen by the peer: never pre-allocate more than a
+            // bounded chunk on its say-so. The buffer still grows as data arrives.
+            src.reserve((self.waiting_for - src.len()).min(MAX_RESERVE));
             return Ok(None);
         }
         match self.state {
